@@ -270,9 +270,9 @@ def render(doc: dict, fmt: dict | None = None) -> bytes:
             elif fmt.get("measure_comments"):
                 L.append("  // measure 1")
             for ri, row in enumerate(rows):
-                L.append(row)
+                L.append(row + (" " if fmt.get("row_trailing_space") and ri % 2 else ""))
                 if fmt.get("blank_rows") and ri % 3 == 1:
-                    L.append("")
+                    L.append("  " if fmt.get("space_blank") else "")
         L.append(";")
         L.append("")
     return nl.join(L).encode("utf-8")
